@@ -83,9 +83,10 @@ def run_worker(mod, tier: str, seed: int, shard: int, nshards: int, out: Path) -
         try:
             r = mod.run_case(case)
         except Exception as e:  # noqa: BLE001  harness failure: never folded into held/violated
-            res["errors"].append({"case": jsonable(case), "error": traceback.format_exc()[-1500:]})
-            if len(res["errors"]) > 5:
-                break
+            # (the remaining cases are still run: a violation found by any of them is reported, and outweighs the harness errors)
+            res["nerrors"] = res.get("nerrors", 0) + 1
+            if len(res["errors"]) < 6:
+                res["errors"].append({"case": jsonable(case), "error": traceback.format_exc()[-1500:]})
             continue
         res["n"] += 1
         if r.get("sig") is not None:
